@@ -204,9 +204,9 @@ var specs = map[string]*CheckSpec{
 	},
 	"C12": {
 		ID: "C12", Flavour: "atp", Level: "exploration",
-		Quick:    []Batch{{Name: "c12.history", Count: 40000}},
-		Thorough: []Batch{{Name: "c12.history", Count: 3000000}},
-		Rule:     "each run = one generated scope schema and a tape-drawn history of 1-30 operations (Unserialize, Validate, Serialize, ValidateCompatibility with data and with identical / single-feature-mutated schemas; valid and corrupted arguments; results of earlier calls fed back) on ONE instance; every operation is evaluated under the natural, two drawn, the reversed and a rotated iteration order of every map the SDK ranges over (map-order seam on all range-over-map and MapKeys sites), its argument is deep-compared before/after, and its verdict/result and the schema's self-description are compared with a freshly built instance; distinct = distinct (schema recipe, history); non-trivial = at least one map iteration was reordered",
+		Quick:    []Batch{{Name: "c12.history", Count: 40000}, {Name: "c12.lib", Count: 12000}},
+		Thorough: []Batch{{Name: "c12.history", Count: 3000000}, {Name: "c12.lib", Count: 600000}},
+		Rule:     "each run = one generated scope schema and a tape-drawn history of 1-30 operations (Unserialize, Validate, Serialize, ValidateCompatibility with data and with identical / single-feature-mutated schemas; valid and corrupted arguments; results of earlier calls fed back) on ONE instance - c12.lib does the same on a fixed struct-mapped scope (defaults of non-pointer object members, sub-object defaults, unit strings, a plain sub-object used as member and as list item); every operation is evaluated under the natural, two drawn, the reversed and a rotated iteration order of every map the SDK ranges over (map-order seam on all range-over-map and MapKeys sites), its argument is deep-compared before/after, and its verdict/result and the schema's self-description are compared with a freshly built instance; distinct = distinct (schema recipe, history); non-trivial = at least one map iteration was reordered",
 		Real:     []string{"schema package (all type kinds reachable from generated scopes)"},
 		Stub:     []string{"runtime map iteration order -> zzsimrt.MapOrder / OrderKeys seam (single goroutine, no scheduler)"},
 		Assume:   []string{"error text is not compared, only accept/reject and accepted results", "mutating returned values is not part of the statement and is not done"},
@@ -541,7 +541,7 @@ func doCheck(id, tier string) int {
 	if tier == "thorough" {
 		batches = spec.Thorough
 	}
-	workerTimeout := 15 * time.Minute
+	workerTimeout := 8 * time.Minute
 	if tier == "thorough" {
 		workerTimeout = 3 * time.Hour
 	}
